@@ -2,7 +2,7 @@
    array) and of the list functions of lib/stdlib/Duden/Listen.ddp.
    A ddpgenericlist is modelled by its element sequence; every grow_if_needed/memmove/memcpy group
    of a C primitive is summarised by its net effect on that sequence, the control flow around it
-   (early returns, index checks, CLAMP) is transcribed literally.  Capacity and element ownership
+   (index checks) is transcribed literally.  Capacity and element ownership
    (claim_non_primitive / free_func) are C12's concern and not modelled. *)
 From Coq Require Import List ZArith Bool Lia.
 From DDP Require Import Lib.Base.
@@ -19,21 +19,14 @@ Section CPrims.
   Definition efficient_list_append_list (l other : list A) : list A := l ++ other.
   Definition efficient_list_prepend_list (l other : list A) : list A := other ++ l.
 
-  (* #define CLAMP(index, len) ((index) < 0 ? 0 : ((index) >= (len) ? (len)-1 : (index))) *)
-  Definition CLAMP (index ln : Z) : Z := if index <? 0 then 0 else if index >=? ln then ln - 1 else index.
-
   (* inclusive range, 0-based indices:
-       if (list->len <= 0) return;
        if (start > end) ddp_runtime_error(...);
-       start = CLAMP(start, len); end = CLAMP(end, len);
+       if (start < 0 || end >= list->len) ddp_runtime_error(...);
        memmove(&arr[start], &arr[end + 1], (len - end - 1) cells); len -= end - start + 1; *)
   Definition efficient_list_delete_range (l : list A) (start end_ : Z) : res (list A) :=
-    if len l <=? 0 then Ok l
-    else if start >? end_ then Err
-    else
-      let st := CLAMP start (len l) in
-      let en := CLAMP end_ (len l) in
-      Ok (firstn (Z.to_nat st) l ++ skipn (Z.to_nat (en + 1)) l).
+    if start >? end_ then Err
+    else if (start <? 0) || (end_ >=? len l) then Err
+    else Ok (firstn (Z.to_nat start) l ++ skipn (Z.to_nat (end_ + 1)) l).
 
   (* 0-based index:
        if (index < 0 || index > list->len) ddp_runtime_error(...);
